@@ -99,6 +99,7 @@ class _FuseReluClipBase(RewriteRuleClassBase, abc.ABC):
         first_clip_node = kwargs.get("out_first_clip").producer()
         clip_min_max.extend([inp for inp in first_clip_node.inputs[1:] if inp is not None])
 
+        second_clip_node = None
         if out_second_clip := kwargs.get("out_second_clip"):
             second_clip_node = out_second_clip.producer()
             clip_min_max.extend(
@@ -111,6 +112,23 @@ class _FuseReluClipBase(RewriteRuleClassBase, abc.ABC):
 
             if ir.convenience.get_const_tensor(m) is None:
                 return check_result.fail(f"{m.name} is not a constant.")
+
+        # The element type of the clipped value is needed to build the fused bounds.
+        for clip_node in (first_clip_node, second_clip_node):
+            if clip_node is not None and (
+                clip_node.inputs[0] is None or clip_node.inputs[0].dtype is None
+            ):
+                return check_result.fail(f"The element type of the input of {clip_node.name} is unknown.")
+
+        # Clip(x, lo, hi) = min(hi, max(x, lo)). A single Clip with the combined bounds is
+        # equivalent to the sequence only if the combined bounds do not cross.
+        min_clip, max_clip = self.compute_clip_min_max(first_clip_node, second_clip_node)
+        if (
+            min_clip is not None
+            and max_clip is not None
+            and np.any(min_clip.numpy() > max_clip.numpy())
+        ):
+            return check_result.fail("The combined lower bound exceeds the combined upper bound.")
 
         return check_result
 
